@@ -100,18 +100,23 @@ G12_sniIsOrigin(cfg, st, h) ==
 
 \* --- C07 (first request) / C10 (every later hop)
 Body(cfg) == cfg.bodyLen
+\* (a user-defined body whose source fails - cfg.defaults.bodyFails - leaves an upload that the peer can tell is
+\* incomplete: a chunked body is never terminated, a body of declared length is complete only if all of it went out)
 G07_oneWellFormedRequest(cfg, st, h) ==
-  Tun(cfg, st) \/ (h.req.parsed /\ h.req.version = 1 /\ h.req.trailing = 0 /\ h.req.complete)
+  Tun(cfg, st) \/ (h.req.parsed /\ h.req.version = 1 /\ h.req.trailing = 0
+                   /\ IF cfg.defaults.bodyFails THEN (h.req.framing = "chunked" => ~h.req.complete) ELSE h.req.complete)
 G07_method(cfg, st, h) == Tun(cfg, st) \/ h.req.method = cfg.req.method
 G07_framingConsistent(cfg, st, h) ==
   Tun(cfg, st) \/
   /\ h.req.framing \in {"none", "length", "chunked"}
-  /\ h.req.framing = "length" => h.req.clv = <<h.req.rawBodyLen>>
+  /\ h.req.framing = "length" =>
+        IF cfg.defaults.bodyFails THEN (Len(h.req.clv) = 1 /\ h.req.rawBodyLen <= h.req.clv[1]) ELSE h.req.clv = <<h.req.rawBodyLen>>
   /\ h.req.framing = "chunked" => (~h.req.midZero /\ h.req.clv = <<>>)
   /\ h.req.framing = "none" => (h.req.rawBodyLen = 0 /\ h.req.clv = <<>>)
 G07_bodyFaithful(cfg, st, h) ==
   (Tun(cfg, st) \/ (st.hops >= 1 /\ st.lastStatus \notin {307, 308})) \/
-  (h.req.bodyLen = Body(cfg) /\ h.req.bodyLcp = Body(cfg))
+  (IF cfg.defaults.bodyFails THEN (h.req.bodyLcp = h.req.bodyLen /\ h.req.bodyLen <= cfg.defaults.failSent)
+   ELSE (h.req.bodyLen = Body(cfg) /\ h.req.bodyLcp = Body(cfg)))
 \* the request-target decodes back to the path and query of the URL asked for, and carries no fragment
 G07_target(cfg, st, h) ==
   Tun(cfg, st) \/ (NormPath(h.req.url.path) = NormPath(st.cur.path) /\ h.req.url.q = st.cur.q /\ ~h.req.url.frag)
@@ -188,7 +193,8 @@ AfterHop(cfg, st) == [After(cfg, st) EXCEPT !.hops = @ + 1]
 (* ---------------------------------------------------------------------- *)
 SameUrlModFragment(a, b) == SameUrl(a, b)
 G09_outcome(cfg, st, d) ==
-  CASE st.expect.k = "ok"  -> d.res = "ok" /\ d.status = st.expect.status
+  CASE cfg.defaults.bodyFails -> d.res = "err"       \* the body's error is the call's error
+    [] st.expect.k = "ok"  -> d.res = "ok" /\ d.status = st.expect.status
     [] st.expect.k = "err" -> d.res = "err" /\ (st.expect.what = "TooManyRedirections" => d.kind = "TooManyRedirections")
     [] OTHER -> d.res = "err"      \* stopped although another request was due: only an error can explain that
 G09_finalUrl(cfg, st, d) == d.res = "ok" => SameUrlModFragment(d.url, st.cur)
